@@ -316,7 +316,22 @@ class Model:
                     resource.setrlimit(resource.RLIMIT_STACK, (hard, hard))
                 except Exception:
                     pass
-        self.p = subprocess.Popen([binary], preexec_fn=_big_stack, stdin=subprocess.PIPE, stdout=subprocess.PIPE, text=True, encoding="latin-1", bufsize=1)
+        def _limits():
+            _big_stack()
+            import resource
+            # a model process must never outlive its check or eat the machine: cap its address space and CPU time, and
+            # have the kernel kill it when the parent dies (an orphaned 40 GB pvmodel was found once during the build)
+            try:
+                resource.setrlimit(resource.RLIMIT_AS, (16 << 30, 16 << 30))
+                resource.setrlimit(resource.RLIMIT_CPU, (7200, 7200))
+            except Exception:
+                pass
+            try:
+                import ctypes
+                ctypes.CDLL("libc.so.6").prctl(1, 9)   # PR_SET_PDEATHSIG, SIGKILL
+            except Exception:
+                pass
+        self.p = subprocess.Popen([binary], preexec_fn=_limits, stdin=subprocess.PIPE, stdout=subprocess.PIPE, text=True, encoding="latin-1", bufsize=1)
         self.n = 0
 
     def ask_raw(self, req):
